@@ -267,22 +267,32 @@ def _param_ever_passed(ctx, f, p):
 def _memo_guard(f, node, target):
     """the store is guarded by a test on the same place: `X is None`, `not X`, `key not in D`"""
     t = ast.unparse(target)
+
+    def resolve(a, p):
+        # a flag local bound once to a test (`loaded = key in table`; `if not loaded: table[key] = ..`) stands for that test
+        if isinstance(a, ast.Name) and a.id not in f.params():
+            defs = [n.value for n in iter_own_nodes(f.node) if isinstance(n, ast.Assign) and len(n.targets) == 1
+                    and isinstance(n.targets[0], ast.Name) and n.targets[0].id == a.id]
+            if len(defs) == 1 and isinstance(defs[0], (ast.Compare, ast.UnaryOp, ast.BoolOp)):
+                return conjuncts(defs[0], p)
+        return [(a, p)]
     for test, pol in enclosing_tests(f.node, node):
-        for a, p in conjuncts(test, pol):
-            s = ast.unparse(a)
-            if isinstance(a, ast.Compare) and len(a.ops) == 1:
-                l, r = ast.unparse(a.left), ast.unparse(a.comparators[0])
-                if l == t and r == "None" and ((p and isinstance(a.ops[0], ast.Is)) or (not p and isinstance(a.ops[0], ast.IsNot))):
-                    return "is-None"
-                if isinstance(target, ast.Subscript) and r == ast.unparse(target.value) and l == ast.unparse(target.slice) and (
-                        (p and isinstance(a.ops[0], ast.NotIn)) or (not p and isinstance(a.ops[0], ast.In))):
-                    return "not-in"
-            if s == t and not p:
-                return "falsy"
-            if isinstance(a, ast.Call) and isinstance(a.func, ast.Name) and a.func.id == "hasattr" and not p and len(a.args) == 2:
-                # if not hasattr(cls, "x"): setattr(cls, "x", ...)
-                if isinstance(node, ast.Call) and ast.unparse(node.args[0]) == ast.unparse(a.args[0]) and ast.unparse(node.args[1]) == ast.unparse(a.args[1]):
-                    return "hasattr"
+        for a0, p0 in conjuncts(test, pol):
+          for a, p in resolve(a0, p0):
+              s = ast.unparse(a)
+              if isinstance(a, ast.Compare) and len(a.ops) == 1:
+                  l, r = ast.unparse(a.left), ast.unparse(a.comparators[0])
+                  if l == t and r == "None" and ((p and isinstance(a.ops[0], ast.Is)) or (not p and isinstance(a.ops[0], ast.IsNot))):
+                      return "is-None"
+                  if isinstance(target, ast.Subscript) and r == ast.unparse(target.value) and l == ast.unparse(target.slice) and (
+                          (p and isinstance(a.ops[0], ast.NotIn)) or (not p and isinstance(a.ops[0], ast.In))):
+                      return "not-in"
+              if s == t and not p:
+                  return "falsy"
+              if isinstance(a, ast.Call) and isinstance(a.func, ast.Name) and a.func.id == "hasattr" and not p and len(a.args) == 2:
+                  # if not hasattr(cls, "x"): setattr(cls, "x", ...)
+                  if isinstance(node, ast.Call) and ast.unparse(node.args[0]) == ast.unparse(a.args[0]) and ast.unparse(node.args[1]) == ast.unparse(a.args[1]):
+                      return "hasattr"
     return None
 
 
@@ -521,6 +531,13 @@ def _dependent_part_unread(ctx, f, node, place, dep):
             keys.add(par.slice.value)
         else:
             all_sub = False
+    if all_sub and isinstance(node.value, ast.Dict) and all(isinstance(k, ast.Constant) for k in node.value.keys):
+        # the dict written out in one literal: an entry is argument-dependent when its expression mentions a dependent name
+        dep_keys = {k.value for k, v in zip(node.value.keys, node.value.values)
+                    if {x.id for x in ast.walk(v) if isinstance(x, ast.Name)} & dep}
+        if keys and not (keys & dep_keys):
+            return "readers use only the entries %s, the argument-dependent entries are %s" % (sorted(keys), sorted(dep_keys))
+        return None
     if all_sub and isinstance(node.value, ast.Name):
         # entries of the dict literal bound to that name, and their later mutations, per key
         name = node.value.id
